@@ -377,11 +377,13 @@ example : ((PySeq.fresh 32 4).run [6, 2, 21, 3]).dataRows = 24 ∧
     ((PySeq.fresh 32 4).run [6, 2, 21, 3]).view 32 = stripedView 32 4 32 ∧
     ((PySeq.fresh 32 4).run [6, 2, 21, 3]).viewCell 32 31 3 = .elem 3 31 0 := by decide
 
-/-! ### views exported before the object is reused: the recorded finding
+/-! ### views exported before the object is reused
 
   The property also quantifies over views taken BEFORE the object is reused for scoring.  For those
-  it is false on the code as it is (and the repair — refusing to reconfigure while a view is
-  exported, or keeping the old block alive — is not a one-line patch): -/
+  it was false on the code as found (`Variant.asIs`, `stale_view_counterexample`); the repair in
+  lightmotif-py (/repo 34d1e9e, `Variant.repaired`: the sequence counts its exported buffers and refuses
+  to add look-ahead rows while one is alive) makes it true for every history of exports, releases and
+  reuses (`stale_view_repaired`, `views_never_stale`): -/
 
 /-- the full statement for exported views: whatever the allocator does, a view exported at any time
     still points into the storage of the object after a later `calculate` -/
@@ -422,6 +424,104 @@ theorem stale_view_partial (o : PyObj) (align M : Nat) (moves : Bool) (o' : PyOb
 
 example : (PySeq.fresh 32 4).grows 6 = true ∧ ((PySeq.fresh 32 4).configure 6).grows 3 = false ∧
     staleAdmissible .asIs (PySeq.fresh 32 4) 6 = ["same", "differs"] := by decide
+
+/-! ### every history of exports, releases and reuses (the code as repaired) -/
+
+/-- what a Python program can do with one striped sequence and its views -/
+inductive ViewOp where
+  | export (align : Nat)              -- `memoryview(seq)`
+  | release (i : Nat)                 -- `view.release()` / the view is collected (the i-th live one)
+  | reuse (M : Nat) (moves : Bool)    -- `calculate` / `Scanner` / `scan` with a motif of `M` rows; `moves` =
+                                      -- the allocator's choice if the storage grows
+deriving Repr
+
+/-- the object and its live views -/
+structure ViewState where
+  obj : PyObj
+  live : List Exported
+
+def ViewState.step (s : ViewState) : ViewOp → ViewState
+  | .export a => ⟨(s.obj.export a).1, (s.obj.export a).2 :: s.live⟩
+  | .release i =>
+    if i < s.live.length then ⟨{ s.obj with exports := s.obj.exports - 1 }, s.live.eraseIdx i⟩ else s
+  | .reuse M moves =>
+    match PyObj.calculate .repaired moves s.obj M with
+    | .ok o' => ⟨o', s.live⟩
+    | .error _ => s                   -- `BufferError`: the object is left as it was
+
+/-- the export count is the number of live views and every live view points into the current storage -/
+def ViewState.Inv (s : ViewState) : Prop :=
+  s.obj.exports = s.live.length ∧ ∀ e ∈ s.live, e.valid s.obj
+
+theorem ViewState.step_inv (s : ViewState) (op : ViewOp) (h : s.Inv) : (s.step op).Inv := by
+  obtain ⟨hc, hv⟩ := h
+  cases op with
+  | «export» a =>
+    have hs : s.step (.export a) =
+        ⟨{ s.obj with exports := s.obj.exports + 1 }, ⟨s.obj.seq.view a, s.obj.block⟩ :: s.live⟩ := by
+      simp [ViewState.step, PyObj.export]
+    rw [hs]
+    refine ⟨by simp [hc], ?_⟩
+    intro e he
+    simp only [List.mem_cons] at he
+    rcases he with rfl | he
+    · simp [Exported.valid]
+    · have := hv e he
+      simpa [Exported.valid] using this
+  | release i =>
+    by_cases hi : i < s.live.length
+    · have hs : s.step (.release i) = ⟨{ s.obj with exports := s.obj.exports - 1 }, s.live.eraseIdx i⟩ := by
+        simp [ViewState.step, hi]
+      rw [hs]
+      refine ⟨?_, ?_⟩
+      · simp only [List.length_eraseIdx, hi, if_true]; omega
+      · intro e he
+        have := hv e (List.mem_of_mem_eraseIdx he)
+        simpa [Exported.valid] using this
+    · have hs : s.step (.release i) = s := by simp [ViewState.step, hi]
+      rw [hs]; exact ⟨hc, hv⟩
+  | reuse M moves =>
+    by_cases hg : s.obj.seq.grows M = true
+    · by_cases he : s.obj.exports > 0
+      · have hs : s.step (.reuse M moves) = s := by
+          simp [ViewState.step, PyObj.calculate, hg, he]
+        rw [hs]; exact ⟨hc, hv⟩
+      · have hs : s.step (.reuse M moves) =
+            ⟨{ s.obj with seq := s.obj.seq.configure M, block := if moves then s.obj.block + 1 else s.obj.block }, s.live⟩ := by
+          simp [ViewState.step, PyObj.calculate, hg, he]
+        rw [hs]
+        have h0 : s.live = [] := by
+          have : s.live.length = 0 := by omega
+          exact List.length_eq_zero_iff.mp this
+        refine ⟨by simpa using hc, ?_⟩
+        intro e he'; simp [h0] at he'
+    · have hs : s.step (.reuse M moves) = ⟨{ s.obj with seq := s.obj.seq.configure M }, s.live⟩ := by
+        simp [ViewState.step, PyObj.calculate, hg]
+      rw [hs]
+      refine ⟨hc, ?_⟩
+      intro e he
+      have := hv e he
+      simpa [Exported.valid] using this
+
+/-- **C18, views taken before the object is reused, every history.**  Whatever a program does with
+    one striped sequence — export views, release them in any order, reuse the sequence with motifs of any
+    widths, whatever the allocator does when the storage grows — every view that is still alive points
+    into the storage the object owns (so it shows the logical contents, by `view_after_reuse`), and the
+    object's export count is the number of live views. -/
+theorem views_never_stale (cols R : Nat) (ops : List ViewOp) :
+    (ops.foldl ViewState.step ⟨PyObj.fresh cols R, []⟩).Inv := by
+  have h0 : (ViewState.mk (PyObj.fresh cols R) []).Inv := ⟨rfl, by simp⟩
+  generalize ViewState.mk (PyObj.fresh cols R) [] = s at h0
+  induction ops generalizing s with
+  | nil => exact h0
+  | cons op ops ih => exact ih _ (s.step_inv op h0)
+
+/-- non-vacuity: a history in which a reuse is refused (a view is alive), then allowed (released), and in
+    which the storage moves while no view is alive -/
+example :
+    let s := [ViewOp.export 32, .reuse 4000 true, .release 0, .reuse 4000 true, .export 32, .reuse 3 true].foldl
+      ViewState.step ⟨PyObj.fresh 32 250, []⟩
+    s.obj.block = 1 ∧ s.live.length = 1 ∧ s.obj.exports = 1 ∧ s.obj.seq.dataRows = 250 + 3999 := by decide
 
 end C18
 end LMV
